@@ -262,6 +262,8 @@ fn main() {
         table_bits: 3,
     };
     run_member(&mut ctx, &every, 22, per_member * 2);
+    let inst_rot = FamParams { gates: vec![GateKind::InstRot, GateKind::Mul], n_committed: 0, n_plain: 1, ..FamParams::default() };
+    run_member(&mut ctx, &inst_rot, 23, per_member);
     for i in 0..n_members {
         let fp = sample_params(&mut rng);
         run_member(&mut ctx, &fp, 2000 + i as u64, per_member);
